@@ -37,6 +37,7 @@ type solver struct {
 	inQuery                bool
 	base                   strings.Builder
 	fallbackArgv           []string
+	nMarker                int
 	nFallback              int
 	fallbackTime           time.Duration
 }
@@ -213,16 +214,23 @@ func (s *solver) check(extra *Term, wantModel []*Term) (satResult, map[string]*b
 		s.send("(assert " + ref(extra) + ")")
 	}
 	s.send("(check-sat)")
-	ans := s.readLine()
-	for strings.HasPrefix(ans, "(error") || ans == "" || ans == "success" {
-		if strings.HasPrefix(ans, "(error") {
+	// every query is closed by an echo marker and the answer is whatever
+	// verdict precedes that marker: stale output of an earlier query (seen once
+	// in 400k queries after a timeout) can never be taken for this answer
+	lines := s.readUntilMarker()
+	ans := ""
+	for _, l := range lines {
+		if strings.HasPrefix(l, "(error") {
 			s.solverTime += time.Since(start)
 			s.send("(pop 1)")
 			s.nUnknown++
-			fmt.Fprintln(os.Stderr, "solver error:", ans)
+			fmt.Fprintln(os.Stderr, "solver error:", l)
 			return resUnknown, nil
 		}
-		ans = s.readLine()
+		switch l {
+		case "sat", "unsat", "unknown", "timeout":
+			ans = l
+		}
 	}
 	var res satResult
 	var model map[string]*big.Int
@@ -257,6 +265,24 @@ func (s *solver) check(extra *Term, wantModel []*Term) (satResult, map[string]*b
 	return res, model
 }
 
+// readUntilMarker sends an echo marker and returns the output lines that
+// precede its echo.
+func (s *solver) readUntilMarker() []string {
+	s.nMarker++
+	mark := fmt.Sprintf("@@%d", s.nMarker)
+	s.send("(echo \"" + mark + "\")")
+	var lines []string
+	for {
+		l := s.readLine()
+		if strings.Trim(l, "\"") == mark {
+			return lines
+		}
+		if l != "" && l != "success" {
+			lines = append(lines, l)
+		}
+	}
+}
+
 func (s *solver) getValues(vs []*Term) map[string]*big.Int {
 	model := map[string]*big.Int{}
 	const chunk = 200
@@ -270,22 +296,13 @@ func (s *solver) getValues(vs []*Term) map[string]*big.Int {
 			names = append(names, ref(v))
 		}
 		s.send("(get-value (" + strings.Join(names, " ") + "))")
-		// read a balanced s-expression
 		var sb strings.Builder
-		depth := 0
-		started := false
-		for !started || depth > 0 {
-			l := s.readLine()
+		for _, l := range s.readUntilMarker() {
 			if strings.HasPrefix(l, "(error") {
 				panic(engineAbort{"solver get-value: " + l})
 			}
-			for _, ch := range l {
-				if ch == '(' {
-					depth++
-					started = true
-				} else if ch == ')' {
-					depth--
-				}
+			if sb.Len() == 0 && !strings.HasPrefix(l, "(") {
+				continue // not part of the value list
 			}
 			sb.WriteString(l)
 			sb.WriteByte(' ')
